@@ -16,6 +16,7 @@ _STUBS = ('socket=SymSocket (send accepts a symbolic 0..len bytes or raises EAGA
           'struct.pack/unpack(i) = inverse pair; unpack of bytes that are not a whole length field returns an unconstrained 32-bit int',
           'monotonicTime = fixed (timeouts are C14)')
 LMAX = 100000
+LQUICK = 20000
 
 
 class FakePoller:
@@ -121,12 +122,23 @@ class SymSocket:
     def getsockopt(self, *a):
         return 0
 
+    def connect(self, addr):
+        pass
+
+    def setblocking(self, x):
+        pass
+
     def setsockopt(self, *a):
         pass
 
     def send(self, buf):
         n = symlen(buf)
         self.k += 1
+        if self.k > 40:
+            from pvf import blob as _b
+            _b.UNWIND['hit'] = True
+            core.CTX.aborted = True
+            raise core.Abort()
         if self.send_budget > 0:
             self.send_budget -= 1
             if self.inp.flag('%s_eagain%d' % (self.name, self.k)):
@@ -169,10 +181,10 @@ def _pair(inp, recvbuf):
 
 
 @obligation('T1', props=('C13', 'C11'), quick=[dict(k=1, sends=2, reads=2), dict(k=2, sends=1, reads=2), dict(k=2, sends=2, reads=1), dict(k=3, sends=1, reads=1)],
-            thorough=[dict(k=1, sends=3, reads=3), dict(k=2, sends=2, reads=2), dict(k=3, sends=2, reads=1), dict(k=3, sends=1, reads=2), dict(k=4, sends=1, reads=1)],
+            thorough=[dict(k=1, sends=3, reads=3, lmax=LMAX), dict(k=2, sends=2, reads=2, lmax=LMAX), dict(k=3, sends=2, reads=1), dict(k=3, sends=1, reads=2), dict(k=4, sends=1, reads=1)],
             stubs=_STUBS,
-            bounds='k<=4 messages with encoded length 1..100000 each (below, equal to and above the symbolic receive buffer size 1..65536); <=3 send() calls with symbolic short-write/EAGAIN outcome, <=3 read events of <=2 symbolic fragments, then drain')
-def T1(inp, k, sends, reads):
+            bounds='k<=4 messages with encoded length 1..20000 (quick) / 1..100000 (thorough) each (below, equal to and above the symbolic receive buffer size 1..65536); <=3 send() calls with symbolic short-write/EAGAIN outcome, <=3 read events of <=2 symbolic fragments, then drain')
+def T1(inp, k, sends, reads, lmax=LQUICK):
     """round trip through two real TcpConnection objects: whatever the partial-send and fragmentation pattern, the receiver's
     callback sequence is a prefix of the sent sequence (same order, each once, equal messages) and, once everything is flushed
     and read, equals it; no exception, no disconnect; leftover bytes are a proper prefix of the next frame."""
@@ -181,7 +193,7 @@ def T1(inp, k, sends, reads):
     a, b, ca, cb, got, disc = _pair(inp, R)
     msgs = []
     for i in range(k):
-        codec.lengths[i] = inp.int('L%d' % i, 1, LMAX)
+        codec.lengths[i] = inp.int('L%d' % i, 1, lmax)
         msgs.append(i)
     a.send_budget = sends
     exc = None
@@ -296,3 +308,81 @@ def T3(inp):
     cl['nothing_delivered_afterwards'] = len(got) == n_before
     cl['state_disconnected'] = cb.state == CONNECTION_STATE.DISCONNECTED
     return Res(cl, nontrivial=True, obs=lambda: dict(got=list(got), disc=len(disc)))
+
+
+class _SockMod:
+    """stands for the socket module inside pysyncobj.tcp_connection: socket() hands out SymSockets"""
+
+    def __init__(self, inp):
+        self.inp, self.made = inp, []
+
+    def socket(self, *a):
+        s = SymSocket(self.inp, 's%d' % len(self.made))
+        s.peer = SymSocket(self.inp, 'p%d' % len(self.made))
+        self.made.append(s)
+        return s
+
+    def __getattr__(self, name):
+        return getattr(realsocket, name)
+
+
+@obligation('T4', props=('C13', 'C14'), quick=[dict(k=1), dict(k=2)], thorough=[dict(k=1), dict(k=2), dict(k=3)], stubs=_STUBS + ('socket.socket() = SymSocket factory',),
+            bounds='a dialling connection object that loses its connection after a symbolic number of bytes of a frame (0..whole header+body-1), is re-dialled, and then receives k<=3 valid frames in <=2 symbolic fragments + drain')
+def T4(inp, k):
+    """connection reuse: after a connection died in the middle of a frame, the same object re-dialled delivers the new
+    stream completely and in order - no state of the dead connection (partial frame, parsed header, unsent bytes) leaks."""
+    codec = install(inp)
+    sm = _SockMod(inp)
+    tc.socket = sm
+    try:
+        got, disc, conns = [], [], []
+        conn = tc.TcpConnection(FakePoller(), onMessageReceived=got.append, onDisconnected=lambda: disc.append(1),
+                                onConnected=lambda: conns.append(1), recvBufferSize=inp.int('recvbuf', 1, 65536))
+        pc = getattr(conn, '_TcpConnection__processConnection')
+        exc = None
+        ok = conn.connect('127.0.0.1', 1)
+        _, exc = guard(pc, 7, POLL_EVENT_TYPE.WRITE)
+        s1 = sm.made[0]
+        # first life: frame 100 arrives only partially, some bytes of an own message stay unsent
+        codec.lengths[100] = inp.int('Lold', 1, LQUICK)
+        frame = codec.pack('i', codec.lengths[100]) + codec.compress(('pickled', 100))
+        cut = inp.int('cut', 0, LQUICK + 4)
+        inp.assume(cut < 4 + codec.lengths[100])
+        s1.wire = frame[:cut]
+        s1.recv_budget = -1
+        if exc is None:
+            _, exc = guard(pc, 7, POLL_EVENT_TYPE.READ)
+        codec.lengths[200] = inp.int('Lown', 1, LQUICK)
+        s1.send_budget = 1
+        if exc is None:
+            _, exc = guard(conn.send, 200)
+        how = inp.choice('how', 2)
+        if exc is None:
+            _, exc = guard(conn.disconnect) if how == 0 else guard(pc, 7, POLL_EVENT_TYPE.ERROR)
+        n_old = len(got)
+        # second life
+        if exc is None:
+            _, exc = guard(conn.connect, '127.0.0.1', 1)
+        if exc is None:
+            _, exc = guard(pc, 7, POLL_EVENT_TYPE.WRITE)
+        s2 = sm.made[-1]
+        wire = Blob()
+        for i in range(k):
+            codec.lengths[i] = inp.int('L%d' % i, 1, LQUICK)
+            wire = wire + codec.pack('i', codec.lengths[i]) + codec.compress(('pickled', i))
+        s2.wire = wire
+        s2.recv_budget = 2
+        if exc is None:
+            _, exc = guard(pc, 7, POLL_EVENT_TYPE.READ)
+        s2.recv_budget = -1
+        if exc is None:
+            _, exc = guard(pc, 7, POLL_EVENT_TYPE.READ)
+    finally:
+        tc.socket = realsocket
+    cl = {'no_exception': exc is None}
+    cl['old_partial_frame_never_delivered'] = 100 not in got
+    cl['new_stream_delivered_in_order'] = got[n_old:] == list(range(k))
+    cl['connected_twice_disconnected_once'] = len(conns) == 2 and len(disc) == 1
+    cl['still_connected'] = conn.state == CONNECTION_STATE.CONNECTED
+    cl['old_unsent_bytes_not_resent'] = len(sm.made) == 2 and bool(Eq(sm.made[-1].peer.wire.slen(), 0))
+    return Res(cl, nontrivial=cut >= 4, obs=lambda: dict(k=k, got=list(got), disc=len(disc), conns=len(conns), state=conn.state, exc=show(exc)))
